@@ -79,9 +79,51 @@ def t_build_swaps_x_and_y(cw, cp, cr, cb):
     cb.ensures = [(c[0], swapped) if c[0] == lab else c for c in cb.ensures]
 
 
+def t_comment_line_keeps_leading_blanks(cw, cp, cr, cb):
+    pass
+
+
+def _more_keeps_blanks(c_any, c_like):
+    from pyvc import strmodel as STR
+    from pyvc.models import SymStr
+
+    def clause(E, v, new, k):  # "the line is '# ' + the comment AS IT IS + newline"
+        z = v["given_comments"].get(k).z
+        return STR.as_id(E, new[0]) == STR.as_id(E, SymStr(["# ", STR.AbsStr(z), "\n"]))
+
+    c_any.loops[0]["yields"] = [(c_any.loops[0]["yields"][0][0], clause)]
+
+
+t_comment_line_keeps_leading_blanks.more = _more_keeps_blanks
+
+
+def t_export_drops_one_comment(cw, cp, cr, cb):
+    pass
+
+
+def _more_drops_one(c_any, c_like):
+    lab = "comments-passed-are-the-optional-source-header-then-the-tree's-own-comments-and-nothing-else"
+    orig = dict((c[0], c[1]) for c in c_like.ensures)[lab]
+
+    def weaker(E, v, o):  # says only that the header entries are passed: nothing about the tree's own comments
+        a = [x for nm, x in E.call_log if nm == "to_swc"][0]
+        return zint(a["comments"].n) >= 0
+
+    c_like.ensures = [(c[0], weaker) if c[0] == lab else c for c in c_like.ensures]
+
+
+t_export_drops_one_comment.more = _more_drops_one
+
+
+def t_parse_says_nothing_about_comments(cw, cp, cr, cb):
+    lab = "comments-are-the-comment-lines-minus-the-column-header-in-order"
+    cp.ensures = [(c[0], (lambda E, v, o: True)) if c[0] == lab else c for c in cp.ensures]
+
+
 if __name__ == "__main__":
     print("unchanged contracts      ->", run() or "all discharged")
-    for t in (t_no_root_guard, t_three_decimals, t_reset_keeps_ids, t_reset_says_nothing_about_attributes, t_parse_says_nothing_about_fields, t_build_swaps_x_and_y):
+    for t in (t_no_root_guard, t_three_decimals, t_reset_keeps_ids, t_reset_says_nothing_about_attributes, t_parse_says_nothing_about_fields, t_build_swaps_x_and_y,
+              t_comment_line_keeps_leading_blanks, t_export_drops_one_comment, t_parse_says_nothing_about_comments):
         r = run(t)
         if hasattr(t, "undo"):
             t.undo()
